@@ -362,6 +362,9 @@ pub fn gen_s1(focus: &str, seed: u64) -> S1Scenario {
         vec![]
     };
     let chooser = if rng.chance(1, 2) { ChooserKind::Uniform } else { ChooserKind::Adversarial };
+    // wait for the checker through the reporting variants of join in some runs
+    let join_mode = if !drop_without_join && matches!(focus, "C02" | "C03" | "C05" | "C12") && rng.chance(1, 4) { 1 + rng.below(2) as u8 } else { 0 };
+    let report_delay_ms = *rng.pick(&[1u16, 5, 50, 1000]);
     S1Scenario {
         graph,
         strategy,
@@ -376,6 +379,8 @@ pub fn gen_s1(focus: &str, seed: u64) -> S1Scenario {
         polls,
         drop_without_join,
         pre_requests,
+        join_mode,
+        report_delay_ms,
         sched,
     }
 }
